@@ -121,6 +121,10 @@ pub enum Node {
     /// PaintColrLayers(first, count)
     ColrLayers(u32, u8),
     Unary(Un, Box<Node>),
+    /// transform paint of kind `un` with an explicit parameter set, see `xf_paint`:
+    /// 0 = identity parameters, 1 / 2 = a pair whose product is exactly the identity for the
+    /// translate / matrix / scale kinds (ordinary opposite values for rotate and skew)
+    Xf(Un, u8, Box<Node>),
     /// (source, backdrop)
     Composite(Box<Node>, Box<Node>),
 }
@@ -128,7 +132,7 @@ pub enum Node {
 impl Node {
     pub fn size(&self) -> usize {
         match self {
-            Node::Unary(_, c) => 1 + c.size(),
+            Node::Unary(_, c) | Node::Xf(_, _, c) => 1 + c.size(),
             Node::Composite(a, b) => 1 + a.size() + b.size(),
             _ => 1,
         }
@@ -140,6 +144,7 @@ impl Node {
             Node::ColrGlyph(g) => json!(["colr_glyph", g]),
             Node::ColrLayers(f, c) => json!(["colr_layers", f, c]),
             Node::Unary(u, c) => json!(["unary", format!("{u:?}"), c.to_json()]),
+            Node::Xf(u, p, c) => json!(["xf", format!("{u:?}"), p, c.to_json()]),
             Node::Composite(s, b) => json!(["composite", s.to_json(), b.to_json()]),
         }
     }
@@ -154,6 +159,7 @@ impl Node {
                 *UNARIES.iter().find(|u| format!("{u:?}") == v[1].as_str().unwrap_or(""))?,
                 Box::new(Node::from_json(&v[2])?),
             ),
+            "xf" => Node::Xf(*UNARIES.iter().find(|u| format!("{u:?}") == v[1].as_str().unwrap_or(""))?, v[2].as_u64()? as u8, Box::new(Node::from_json(&v[3])?)),
             "composite" => Node::Composite(Box::new(Node::from_json(&v[1])?), Box::new(Node::from_json(&v[2])?)),
             _ => return None,
         })
@@ -290,9 +296,45 @@ fn grad_paint(s: &GradSpec) -> Paint {
 pub fn uses_var(n: &Node) -> bool {
     match n {
         Node::Fill(f) => format!("{f:?}").starts_with("Var"),
-        Node::Unary(u, c) => format!("{u:?}").starts_with("Var") || uses_var(c),
+        Node::Unary(u, c) | Node::Xf(u, _, c) => format!("{u:?}").starts_with("Var") || uses_var(c),
         Node::Composite(a, b) => uses_var(a) || uses_var(b),
         _ => false,
+    }
+}
+
+/// Transform paints with explicit parameters. `param` 0: identity (translate 0, scale 1, rotate 0,
+/// skew 0, identity matrix). `param` 1 and 2: for translate / matrix / scale kinds two values whose
+/// product is exactly the identity in f32 (translate +d / -d, matrix 2x / 0.5x, scale -1 / -1); for
+/// rotate and skew two ordinary opposite values. Variable kinds use the same base values with a
+/// variation index, so they are identity only at the default location when a store is present.
+pub fn xf_paint(u: Un, param: u8, c: Paint) -> Paint {
+    let fx = |v: f64| Fixed::from_f64(v);
+    let (dx, dy): (i16, i16) = match param { 0 => (0, 0), 1 => (10, -10), _ => (-10, 10) };
+    let m: f64 = match param { 0 => 1.0, 1 => 2.0, _ => 0.5 };
+    let sc: f32 = if param == 0 { 1.0 } else { -1.0 };
+    let ang: f32 = match param { 0 => 0.0, 1 => 0.25, _ => -0.25 };
+    match u {
+        Un::Translate => Paint::translate(c, fw(dx), fw(dy)),
+        Un::VarTranslate => Paint::var_translate(c, fw(dx), fw(dy), 0),
+        Un::Transform => Paint::transform(c, Affine2x3::new(fx(m), fx(0.0), fx(0.0), fx(m), fx(0.0), fx(0.0))),
+        Un::VarTransform => Paint::var_transform(c, VarAffine2x3::new(fx(m), fx(0.0), fx(0.0), fx(m), fx(0.0), fx(0.0), 0)),
+        Un::Scale => Paint::scale(c, f2(sc), f2(sc)),
+        Un::VarScale => Paint::var_scale(c, f2(sc), f2(sc), 1),
+        Un::ScaleAroundCenter => Paint::scale_around_center(c, f2(sc), f2(sc), fw(5), fw(6)),
+        Un::VarScaleAroundCenter => Paint::var_scale_around_center(c, f2(sc), f2(sc), fw(5), fw(6), 0),
+        Un::ScaleUniform => Paint::scale_uniform(c, f2(sc)),
+        Un::VarScaleUniform => Paint::var_scale_uniform(c, f2(sc), 2),
+        Un::ScaleUniformAroundCenter => Paint::scale_uniform_around_center(c, f2(sc), fw(5), fw(6)),
+        Un::VarScaleUniformAroundCenter => Paint::var_scale_uniform_around_center(c, f2(sc), fw(5), fw(6), 0),
+        Un::Rotate => Paint::rotate(c, f2(ang)),
+        Un::VarRotate => Paint::var_rotate(c, f2(ang), 1),
+        Un::RotateAroundCenter => Paint::rotate_around_center(c, f2(ang), fw(5), fw(6)),
+        Un::VarRotateAroundCenter => Paint::var_rotate_around_center(c, f2(ang), fw(5), fw(6), 0),
+        Un::Skew => Paint::skew(c, f2(ang), f2(-ang)),
+        Un::VarSkew => Paint::var_skew(c, f2(ang), f2(-ang), 0),
+        Un::SkewAroundCenter => Paint::skew_around_center(c, f2(ang), f2(-ang), fw(5), fw(6)),
+        Un::VarSkewAroundCenter => Paint::var_skew_around_center(c, f2(ang), f2(-ang), fw(5), fw(6), 2),
+        Un::Glyph => Paint::glyph(c, GlyphId16::new(PLAIN_GID)),
     }
 }
 
@@ -303,6 +345,7 @@ pub fn to_paint(n: &Node) -> Paint {
         Node::ColrGlyph(g) => Paint::colr_glyph(GlyphId16::new(*g)),
         Node::ColrLayers(first, count) => Paint::colr_layers(*count, *first),
         Node::Unary(u, c) => unary_paint(*u, to_paint(c)),
+        Node::Xf(u, p, c) => xf_paint(*u, *p, to_paint(c)),
         Node::Composite(s, b) => Paint::composite(to_paint(s), CompositeMode::Multiply, to_paint(b)),
     }
 }
@@ -436,7 +479,7 @@ fn walk(g: &Graph, n: &Node, path: &mut Vec<Slot>, depth: usize, cache_ok: bool,
                 path.pop();
             }
         }
-        Node::Unary(_, c) => walk(g, c, path, depth + 1, cache_ok, a),
+        Node::Unary(_, c) | Node::Xf(_, _, c) => walk(g, c, path, depth + 1, cache_ok, a),
         Node::Composite(s, b) => {
             walk(g, b, path, depth + 1, cache_ok, a);
             walk(g, s, path, depth + 1, cache_ok, a);
@@ -451,6 +494,8 @@ fn walk(g: &Graph, n: &Node, path: &mut Vec<Slot>, depth: usize, cache_ok: bool,
 pub struct Alphabet {
     pub leaves: Vec<Node>,
     pub unaries: Vec<Un>,
+    /// additional unary nodes with explicit parameter sets (`Node::Xf`)
+    pub xfs: Vec<(Un, u8)>,
 }
 
 /// all trees with exactly `size` nodes, memoised by size (index = size)
@@ -464,6 +509,11 @@ pub fn trees_up_to(al: &Alphabet, max: usize) -> Vec<Vec<Node>> {
             for u in &al.unaries {
                 for c in &t[s - 1] {
                     out.push(Node::Unary(*u, Box::new(c.clone())));
+                }
+            }
+            for (u, p) in &al.xfs {
+                for c in &t[s - 1] {
+                    out.push(Node::Xf(*u, *p, Box::new(c.clone())));
                 }
             }
             for sa in 1..s - 1 {
